@@ -152,6 +152,22 @@ theorem c38_detects_chunk (c : Codec) (n id : Nat) (r r' : Repo) (key : Nat)
   rw [hck] at x1 y1
   exact ⟨b, b', x1, y1, by omega, by omega⟩
 
+/-- DETECTS (empty-stream chunk) — explicit corollary: the binding of a stored chunk object does not depend
+    on what it decompresses to; the object the exporter writes for an EMPTY stream (logical_bytes = 0) is bound
+    by stored size and stored digest exactly like any other, so a same-length change of it fails verification
+    or is a collision of `H`. -/
+theorem c38_detects_empty_chunk (c : Codec) (n id : Nat) (r r' : Repo) (key : Nat)
+    (hman : r'.manifest = r.manifest) (hobj : ∀ k, k ≠ key → r'.obj k = r.obj k)
+    (hv : verify c n id r = true) (hv' : verify c n id r' = true)
+    (href : ∃ mb m j, ∃ (hj : j < m.slots.length), r.manifest = some mb ∧ c.decM mb = some m ∧ m.slots[j].key ≠ key ∧
+      ∃ sb sm ch, r.obj m.slots[j].key = some sb ∧ c.decS sb = some sm ∧ ch ∈ sm.chunks ∧ ch.key = key) :
+    ∃ b b', r.obj key = some b ∧ r'.obj key = some b' ∧ b'.length = b.length ∧ c.H b' = c.H b :=
+  c38_detects_chunk c n id r r' key hman hobj hv hv' href
+
+/-- non-vacuity: the one-chunk archive of `exRepo` with its chunk read as an empty-stream frame `[2, 3]`;
+       a same-length replacement `[2, 4]` is rejected -/
+example : verify exCodec 1 1 { exRepo with obj := fun k => if k = 7 then some [2, 4] else exRepo.obj k } = false := by decide
+
 /-- DETECTS (Slot manifest): a changed Slot-manifest object verifies only on a collision of `H` -/
 theorem c38_detects_slot_manifest (c : Codec) (n id : Nat) (r r' : Repo)
     (hman : r'.manifest = r.manifest) (hv : verify c n id r = true) (hv' : verify c n id r' = true)
